@@ -7,7 +7,7 @@ SPEC = dict(
     level="proof",
     harness=dict(pkg_dir="cmd/zoekt-sourcegraph-indexserver", run="TestVerifC32$",
                  files=["cmd/zoekt-sourcegraph-indexserver/zz_verif_c32_test.go"],
-                 n_quick=70, n_thorough=1500),
+                 n_quick=120, n_thorough=1500),
     runner=dict(imports=["From ZV Require Import Lib.Base Model.Cleanup."], case_type="c32case",
                 mismatch_fn="c32_mismatches", shard=200),
     rule="generated index directories of real shards over 2-6 repository ids: simple shards (1-2 per repository, 15% a second "
@@ -15,7 +15,7 @@ SPEC = dict(
          "index.SetTombstone, overlapping with simple shards, occasionally renamed), trash with 1-2 shards per repository, mtimes "
          "from {now-100000, now-86401, now-86400, now-86399, now-3600, now-60, now, now+3600}, 0-2 *.tmp files, an unrelated "
          "file; random assigned subset in random order (6% of the cases with one id twice); shardMerging 65%; the real cleanup() is run twice and the directory "
-         "(files, mtimes, per-shard repository metadata incl. tombstones) observed before / after / after the second run; in 25% of "
+         "(files, mtimes, per-shard repository metadata incl. tombstones) observed before / after / after the second run; in 30% of "
          "the cases the os.Rename of one or two shard files inside moveAll is made to fail during the first run (cleanup.go mapped "
          "through translator/fsinstrument + zzfs shim), the observed failed renames are part of the case. "
          "non-trivial = >= 2 index shards, trash or compound shards present, and the first cleanup changed something.",
